@@ -46,7 +46,7 @@ def fresh_dir(path):
     return path
 
 
-def run_one_script(exe, script, workdir, idx, op_timeout=20, max_slots=400):
+def run_one_script(exe, script, workdir, idx, op_timeout=20, max_slots=400, strace=False):
     """writes script, runs it, returns (trace_path, script_path)"""
     sp = "%s/s%04d.ndjson" % (workdir, idx)
     tp = "%s/t%04d.ndjson" % (workdir, idx)
@@ -54,7 +54,10 @@ def run_one_script(exe, script, workdir, idx, op_timeout=20, max_slots=400):
     with open(sp, "w") as f:
         f.write(script.dumps() if hasattr(script, "dumps") else script)
     shutil.rmtree(root, ignore_errors=True)
-    p = subprocess.run([exe, "run", root, sp, tp, str(op_timeout), str(max_slots)],
+    env = dict(os.environ)
+    if strace:
+        env["ABYVERIF_STRACE"] = "1"
+    p = subprocess.run([exe, "run", root, sp, tp, str(op_timeout), str(max_slots)], env=env,
                        stdout=subprocess.PIPE, stderr=subprocess.PIPE, text=True)
     shutil.rmtree(root, ignore_errors=True)
     if p.returncode != 0:
@@ -62,10 +65,10 @@ def run_one_script(exe, script, workdir, idx, op_timeout=20, max_slots=400):
     return tp, sp
 
 
-def run_scripts(exe, scripts, workdir, op_timeout=20, max_slots=400, jobs=None):
+def run_scripts(exe, scripts, workdir, op_timeout=20, max_slots=400, jobs=None, strace=False):
     jobs = jobs or max(2, NCPU - 2)
     with ThreadPoolExecutor(max_workers=jobs) as ex:
-        futs = [ex.submit(run_one_script, exe, s, workdir, i, op_timeout, max_slots) for i, s in enumerate(scripts)]
+        futs = [ex.submit(run_one_script, exe, s, workdir, i, op_timeout, max_slots, strace) for i, s in enumerate(scripts)]
         return [f.result() for f in futs]
 
 
